@@ -456,9 +456,10 @@ def execute(case, keep_log=False):
                     outcome = "raised:" + type(e).__name__
                     err = e
                 faulted = fs.fired != fired_before
+                returned_despite = faulted and outcome == "loaded"  # must then be the right result
                 if outcome == "timeout":
                     pass
-                elif state == "ref" and not faulted:
+                elif state == "ref" and (not faulted or returned_despite):
                     if outcome != "loaded":
                         res.violation("D1-durable" if disturbed is None else "B1-benign-disturbance", "load", "an acknowledged%s file could not be loaded: %s: %s" % ("" if disturbed is None else " (and then line-duplicated)", outcome, err), site=type(err).__name__)
                     else:
